@@ -112,7 +112,7 @@ U(name="U.lang.search", harness="harness/lang_search.c", mode="H", loops=True, p
   functions=["lang_search"], loop_contracts=["lang_search"], expect_loop_obligations=2, unwind=40, dfcc_loops=True, object_bits=14,
   props=["C07", "C09", "C14"], timeout=900)
 
-U(name="U.lang.phrase_decode", harness="harness/lang_decode.c", mode="H", defines=["UNIT_AUTO"],
+U(noweave_fallback=True, name="U.lang.phrase_decode", harness="harness/lang_decode.c", mode="H", defines=["UNIT_AUTO"],
   profiles=["phrase_decode"], replace_calls=[("lang_search", "stub_lang_search")], object_bits=14,
   functions=["polyseed_phrase_decode", "polyseed_get_num_langs", "polyseed_get_lang"],
   exact_loops=[("polyseed_phrase_decode", 0, 10), ("polyseed_phrase_decode", 1, 16), ("polyseed_phrase_decode", 2, 16)],
@@ -125,21 +125,21 @@ U(name="U.lang.get_comparer", harness="harness/lang_decode.c", mode="H", defines
   functions=["get_comparer"], props=["C07", "C08"])
 
 DEC_RC = [("utf8_nfkd_lazy", "contract_nfkd_lazy"), ("str_split", "contract_str_split"), ("gf_poly_check", "contract_gf_poly_check")]
-U(name="U.api.decode", harness="harness/api_decode.c", mode="H", profiles=["decode"], replace_calls=DEC_RC,
+U(noweave_fallback=True, name="U.api.decode", harness="harness/api_decode.c", mode="H", profiles=["decode"], replace_calls=DEC_RC,
   functions=["polyseed_decode"], unwind=POLYSEED_STR_SIZE_PLUS1,
   props=["C01", "C02", "C05", "C09", "C10", "C13", "C14", "C15", "C16"], timeout=900)
-U(name="U.api.decode_explicit", harness="harness/api_decode.c", mode="H", profiles=["decode"], replace_calls=DEC_RC,
+U(noweave_fallback=True, name="U.api.decode_explicit", harness="harness/api_decode.c", mode="H", profiles=["decode"], replace_calls=DEC_RC,
   defines=["UNIT_EXPLICIT"], functions=["polyseed_decode_explicit"], unwind=POLYSEED_STR_SIZE_PLUS1,
   props=["C01", "C02", "C05", "C09", "C10", "C13", "C14", "C15", "C16"], timeout=900)
 
-U(name="U.api.crypt", harness="harness/api_crypt.c", mode="H", profiles=["crypt"],
+U(noweave_fallback=True, name="U.api.crypt", harness="harness/api_crypt.c", mode="H", profiles=["crypt"],
   replace_calls=[("utf8_nfkd_lazy", "contract_nfkd_lazy"), ("gf_poly_encode", "contract_gf_poly_encode")],
   functions=["polyseed_crypt"], exact_loops=[("polyseed_crypt", 0, 19)], unwind=POLYSEED_STR_SIZE_PLUS1,
   props=["C12", "C13", "C14", "C16"], timeout=900)
 U(name="L.crypt.involution", harness="harness/lem_crypt.c", mode="P", props=["C12", "C04"])
 U(name="L.crypt.wrongpw", harness="harness/lem_crypt.c", mode="P", defines=["LEMMA_WRONGPW"], props=["C12"])
 
-U(name="U.api.encode", harness="harness/api_encode.c", mode="H", profiles=["encode"],
+U(noweave_fallback=True, name="U.api.encode", harness="harness/api_encode.c", mode="H", profiles=["encode"],
   replace_calls=[("write_str", "contract_write_str")], object_bits=14,
   functions=["polyseed_encode"], exact_loops=[("polyseed_encode", 0, 15)], unwind=POLYSEED_STR_SIZE_PLUS1,
   props=["C03", "C01", "C05", "C13", "C16", "C17"], timeout=1800, mem_gb=32)
@@ -163,11 +163,29 @@ U(name="B.str.nfkd_lazy", harness="harness/str_nfkd_lazy_b.c", mode="P", unwind=
   bounded="strings of at most 9 bytes (all byte values); no woven text, so it also decides refactored loops",
   functions=["utf8_nfkd_lazy"], chars=("signed", "unsigned"), props=["C19", "C14"])
 
-for kind, nl in (("STR", 2), ("PREFIX", 3), ("STR_NOACCENT", 6), ("PREFIX_NOACCENT", 12)):
+# functional rule of the four comparers, closed by woven inductive invariants (profile cmpf).  The two comparers
+# without accent handling are proved on the full domain (key in an object as large as a polyseed_str, element object
+# 64 bytes); the two accent-skipping comparers need ghost count / stripped-string arrays and are run with a key
+# object of 64 bytes in the quick tier (bounded in the key length) and of POLYSEED_STR_SIZE bytes in the thorough tier.
+for kind, nl in (("STR", 2), ("PREFIX", 3)):
     U(name="U.cmpf." + kind.lower(), harness="harness/cmp_rule.c", mode="H", loops=True, profiles=["cmpf"],
       defines=["CMP_" + kind], functions=["compare_" + kind.lower(), "compare_" + kind.lower() + "_wrap"], loop_contracts=["compare_" + kind.lower()],
-      expect_loop_obligations=nl, chars=("signed", "unsigned"), unwind=POLYSEED_STR_SIZE_PLUS1, props=["C08", "C07", "C19"], timeout=1800)
+      expect_loop_obligations=nl, chars=("signed", "unsigned"), unwind=POLYSEED_STR_SIZE_PLUS1, props=["C08", "C07", "C19"], timeout=1800,
+      note="key object 1..POLYSEED_STR_SIZE bytes, element object 1..64 bytes (T.wordlen), all byte values")
+for kind, nl in (("STR_NOACCENT", 6), ("PREFIX_NOACCENT", 12)):
+    U(name="U.cmpf." + kind.lower(), harness="harness/cmp_rule.c", mode="H", loops=True, profiles=["cmpf"],
+      defines=["CMP_" + kind, "CMP_KOBJ=64", "CMP_EOBJ=16", "FIXED_OBJ"], functions=["compare_" + kind.lower(), "compare_" + kind.lower() + "_wrap"],
+      loop_contracts=["compare_" + kind.lower()], expect_loop_obligations=nl, chars=("signed", "unsigned"), unwind=POLYSEED_STR_SIZE_PLUS1,
+      bounded="key of at most 63 bytes (all byte values, any number of accent bytes); list element of at most 15 bytes (closed fact T.wordlen: every Spanish/French word is shorter); loops closed by invariants, not unrolled",
+      props=["C08", "C07", "C19"], timeout=1800, mem_gb=16)
+    U(name="U.cmpf." + kind.lower() + ".full", harness="harness/cmp_rule.c", mode="H", loops=True, profiles=["cmpf"], quick=False,
+      defines=["CMP_" + kind, "CMP_EOBJ=16", "FIXED_OBJ"], functions=["compare_" + kind.lower(), "compare_" + kind.lower() + "_wrap"],
+      loop_contracts=["compare_" + kind.lower()], expect_loop_obligations=nl, chars=("signed",), unwind=POLYSEED_STR_SIZE_PLUS1,
+      note="key in an object as large as a polyseed_str (every token the decoders can produce), element object 16 bytes (T.wordlen)",
+      props=["C08", "C07", "C19"], timeout=10800, mem_gb=24)
 U(name="L.cmpf.axioms", harness="harness/cmp_rule.c", mode="P", defines=["CMP_PREFIX_NOACCENT", "LEMMA_AXIOMS"], props=["C08", "C07", "C19"])
 U(name="U.dep.stdlib_time", harness="harness/dep_stdlib_time.c", mode="P", functions=["stdlib_time"], props=["C11", "C18"])
+U(name="L.cmp.order", harness="harness/lem_cmp_order.c", mode="P", unwind=20, chars=("signed", "unsigned"), props=["C07", "C08", "C19"],
+  note="lemma over the comparer contract: stripped strings of at most 16 letters, all byte values")
 
 BY_NAME = {u.name: u for u in UNITS}
